@@ -103,7 +103,7 @@ def snippet(rng) -> bytes:
     k = rng.choice(('write', 'write', 'write', 'pop0', 'pop1', 'try', 'invoke',
                     'getval_op', 'getval_op',
                     'dscalar', 'dpoint', 'sign', 'sign_stack', 'masu', 'masv',
-                    'das', 'rcs', 'rc', 'getval', 'getmsg', 'cts', 'flag',
+                    'das', 'rcs', 'rc', 'getval', 'getmsg', 'cts', 'cts', 'flag',
                     'ret', 'checksig', 'write_stackkey', 'template',
                     'template'))
     if k == 'write':
@@ -170,7 +170,11 @@ def snippet(rng) -> bytes:
     if k == 'getmsg':
         return O('GET_MESSAGE') + bytes([rng.getrandbits(8)]) + O('POP0')
     if k == 'cts':
-        return isa.push(b'\x01') + O('CHECK_TIMESTAMP') + O('POP0')
+        c = rng.choice((b'\x01', (env.NOW0 - 10).to_bytes(4, 'big'),
+                        (env.NOW0 + 10**6).to_bytes(5, 'big')))
+        return isa.push(c) + rng.choice((
+            O('CHECK_TIMESTAMP') + O('POP0'), O('CHECK_TIMESTAMP_VERIFY'),
+            O('CHECK_EPOCH') + O('POP0'), O('CHECK_EPOCH_VERIFY')))
     if k == 'flag':
         name = rng.choice((b'\x01', b'ts_threshold', b'timestamp', b'\x09',
                            b'1', b'returned'))
@@ -243,7 +247,11 @@ def gen_case(rng):
         if rng.random() < 0.2:
             cache[k_] = bytearray(cache[k_])
     if rng.random() < 0.5:
-        cache['timestamp'] = rng.choice((0, env.NOW0, env.NOW0 + 5))
+        # ints, and what an embedder may hand over by mistake or from a JSON
+        # file (float, bool, numeric text): whatever it is stays what it is
+        cache['timestamp'] = rng.choice((0, env.NOW0, env.NOW0 + 5, env.NOW0,
+                                         float(env.NOW0) + 0.75, 1.5e9,
+                                         True, str(env.NOW0), None))
     for name in ('extra', 'P', 'E', 'x', 'X', 'IR', 's', 't', 'T', 'R', 'sa',
                  'RT', 'r'):
         if rng.random() < 0.2:
